@@ -62,6 +62,10 @@ func (c *scriptConn) Read(p []byte) (int, error) {
 	return 0, errors.New("use of closed network connection")
 }
 func (c *scriptConn) Write(b []byte) (int, error) {
+	if len(b) > 1000 {
+		runtime.Gosched() // a large write takes its time
+		time.Sleep(50 * time.Microsecond)
+	}
 	c.mu.Lock()
 	c.writes = append(c.writes, append([]byte{}, b...))
 	c.mu.Unlock()
@@ -309,7 +313,14 @@ func runC11(seed uint64, tier, dir, replay string) error {
 				if rng.Intn(3) == 0 {
 					m, _, _, _ = g.message(1) // real messages of mixed kinds
 				} else {
-					m = util.NewBuffer(mkFrame(uint64(t)*7919+seed, int(next), 8+rng.Intn(200)))
+					sz := 8 + rng.Intn(200)
+					switch rng.Intn(6) {
+					case 0:
+						sz = 2040 + rng.Intn(20) // around the buffer capacity
+					case 1:
+						sz = 2049 + rng.Intn(4000) // beyond it
+					}
+					m = util.NewBuffer(mkFrame(uint64(t)*7919+seed, int(next), sz))
 				}
 				b, _ := m.MarshalBinary()
 				// make every encoding unique so that frames on the wire can be attributed
@@ -386,6 +397,6 @@ func runC11(seed uint64, tier, dir, replay string) error {
 			map[string]interface{}{"kind": "outbound", "producers": np, "messages": total, "writes": len(writes), "frames_on_wire": len(wireIDs), "whole_frames": whole == 1},
 			"outbound", fmt.Sprintf("%d/%d", np, total/16))
 	}
-	o.Meta["rule"] = "real util.MessageStream: 1..32 producer goroutines each submitting 1..40 messages (opaque frames of 8..208 bytes and real controller messages of mixed kinds) to Outbound concurrently, GOMAXPROCS 1/2/4/16; every Write of the scripted connection must be exactly one submitted encoding, the recorded byte stream re-framed by header length must be a merge of the producers' sequences; distinct by producers x message-count bucket"
+	o.Meta["rule"] = "real util.MessageStream: 1..32 producer goroutines each submitting 1..40 messages (opaque frames of 8..6048 bytes incl. sizes around and beyond 2 KiB, and real controller messages of mixed kinds) to Outbound concurrently, GOMAXPROCS 1/2/4/16; every Write of the scripted connection must be exactly one submitted encoding, the recorded byte stream re-framed by header length must be a merge of the producers' sequences; distinct by producers x message-count bucket"
 	return o.Close()
 }
